@@ -271,3 +271,101 @@ def no_capacity_limits(model: Model, run: Run, rule: str, entry: FuncInfo, modul
                 run.fail(Finding(rule, q, norm(lim)[:80], f"{q.split('sansldap.')[-1]} refuses {what} when `{norm(lim)[:60]}`: the names compared count calls or iterations, "
                                  f"they say nothing about the text - {consequence}", model.loc(f.module, st)))
     return n
+
+
+def _deco_kw(c, key: str):
+    """value of a keyword of the @dataclass(...) decorator of class c (None when not given)"""
+    for d in c.node.decorator_list:
+        if isinstance(d, ast.Call) and norm(d.func).split(".")[-1] == "dataclass":
+            for k in d.keywords:
+                if k.arg == key:
+                    return k.value
+    return None
+
+
+def values_compare_by_their_fields(model: Model, run: Run, rule: str, classes: Iterable[str], consequence: str) -> int:
+    """The statements about "equal to the original" are about Python equality of value classes: a dataclass that says `eq=False`
+    compares by identity (or, under a dataclass base, by the base's fields only - every AND equals every AND), a field declared
+    `compare=False` is left out of the comparison, and a hand-written `__eq__` is whatever it says.  None of them is used by
+    the value classes of this package; one that appears changes what "equal" means for every round trip."""
+    n = 0
+    for q in sorted(set(classes)):
+        c = model.classes.get(q)
+        if c is None or not c.is_dataclass:
+            continue
+        n += 1
+        problems = []
+        eqv = _deco_kw(c, "eq")
+        if isinstance(eqv, ast.Constant) and eqv.value is False:
+            problems.append("the class is declared `eq=False`")
+        own_eq = c.methods.get("__eq__")
+        if own_eq is not None:
+            problems.append("the class defines `__eq__` by hand")
+        for st in c.node.body:
+            if isinstance(st, ast.AnnAssign) and isinstance(st.value, ast.Call) and norm(st.value.func).split(".")[-1] == "field":
+                for k in st.value.keywords:
+                    if k.arg == "compare" and isinstance(k.value, ast.Constant) and k.value.value is False and isinstance(st.target, ast.Name):
+                        init_false = any(k2.arg == "init" and isinstance(k2.value, ast.Constant) and k2.value.value is False for k2 in st.value.keywords)
+                        if not init_false:
+                            problems.append(f"field `{st.target.id}` is declared `compare=False`")
+        run.ob(rule, not problems, {"class": q.split(".")[-1]})
+        if problems:
+            run.fail(Finding(rule, q, "; ".join(problems)[:80], f"{q.split('.')[-1]}: {'; '.join(problems)}: {consequence}", model.loc(c.module, c.node)))
+    return n
+
+
+def overrides_keep_the_signature(model: Model, run: Run, rule: str, bases: Iterable[str], methods: Iterable[str], consequence: str) -> int:
+    """Callers reach `pack` / `unpack` / `get_value` through the base class (a list of registered types, a field typed as the base):
+    they pass what the base's signature names.  An override takes the same parameters under the same names, in the same order
+    (more parameters only with defaults); a `**kwargs` that soaks up a keyword the override renamed turns an argument every
+    caller passes into a default."""
+    n = 0
+    for b in bases:
+        bc = model.classes.get(b)
+        if bc is None:
+            continue
+        for mname in methods:
+            bm = bc.methods.get(mname)
+            if bm is None or isinstance(bm.node, ast.Lambda):
+                continue
+            ba = bm.node.args
+            bnames = [a.arg for a in ba.posonlyargs + ba.args + ba.kwonlyargs]
+            # the keywords some call in the package passes to a method of this name: those are the names every override must take
+            used_kw = set()
+            max_pos = 0
+            for g in model.functions.values():
+                if isinstance(g.node, ast.Lambda):
+                    continue
+                # locals that hold the method itself (`unpack_func = next((c.unpack for c in choices ...), LDAPControl.unpack)`)
+                holders = {t_.id for a_ in ast.walk(g.node) if isinstance(a_, (ast.Assign, ast.AnnAssign)) and a_.value is not None and
+                           any(isinstance(x, ast.Attribute) and x.attr == mname and isinstance(x.ctx, ast.Load) for x in ast.walk(a_.value))
+                           for t_ in (a_.targets if isinstance(a_, ast.Assign) else [a_.target]) if isinstance(t_, ast.Name)}
+                for c_ in ast.walk(g.node):
+                    if isinstance(c_, ast.Call) and ((isinstance(c_.func, ast.Attribute) and c_.func.attr == mname) or (isinstance(c_.func, ast.Name) and c_.func.id in holders)):
+                        used_kw |= {k.arg for k in c_.keywords if k.arg}
+                        max_pos = max(max_pos, len(c_.args))
+            used_kw &= set(bnames)
+            for sq in model.subclasses(b, strict=True):
+                sm = model.classes[sq].methods.get(mname)
+                if sm is None or isinstance(sm.node, ast.Lambda):
+                    continue
+                n += 1
+                sa_ = sm.node.args
+                snames = [a.arg for a in sa_.posonlyargs + sa_.args + sa_.kwonlyargs]
+                pos_ = sa_.posonlyargs + sa_.args
+                required = [a.arg for a in pos_[:len(pos_) - len(sa_.defaults)]] + [a.arg for a, d_ in zip(sa_.kwonlyargs, sa_.kw_defaults) if d_ is None]
+                why = None
+                missing = sorted(k for k in used_kw if k not in snames)
+                base_pos = [a.arg for a in ba.posonlyargs + ba.args]
+                req_pos = [a.arg for a in pos_[:len(pos_) - len(sa_.defaults)]]
+                extra_required = ([f"{len(req_pos)} positional arguments"] if len(req_pos) > len(base_pos) else []) + \
+                                 [a.arg for a, d_ in zip(sa_.kwonlyargs, sa_.kw_defaults) if d_ is None and a.arg not in bnames]
+                if missing:
+                    why = f"does not name the parameter{'s' if len(missing) > 1 else ''} {', '.join(missing)} that callers pass by keyword" + \
+                          (f" (they disappear into **{sa_.kwarg.arg})" if sa_.kwarg is not None else "")
+                elif extra_required:
+                    why = f"requires {', '.join(extra_required)}, which {b.split('.')[-1]}.{mname} does not take"
+                run.ob(rule, why is None, {"override": f"{sq.split('.')[-1]}.{mname}"})
+                if why:
+                    run.fail(Finding(rule, sm.qualname, f"({', '.join(snames)})"[:80], f"{sq.split('.')[-1]}.{mname} {why}: {consequence}", model.loc(sm.module, sm.node)))
+    return n
